@@ -574,6 +574,18 @@ def representable(case):
     return True
 
 
+_OPEN = None
+
+
+def open_findings():
+    """ids of the C11 findings that are still open (a fixed finding explains nothing any more)."""
+    global _OPEN
+    if _OPEN is None:
+        from .common import load_findings
+        _OPEN = {f['id'] for f in load_findings() if f['property'] == 'C11' and f.get('status') == 'open'}
+    return _OPEN
+
+
 def unreadable_causes(case, inputs):
     """known reasons for which the current tree cannot read back what it wrote."""
     p = int(case['fmt'][1:-1])
@@ -593,7 +605,7 @@ def unreadable_causes(case, inputs):
         if s['cls'] == 'circleannulus' and len(written) == 2 and \
                 float(f'{float(written[0]):.{p}f}') >= float(f'{float(written[1]):.{p}f}'):
             causes.add('F19')
-    return sorted(causes)
+    return sorted(causes & open_findings())
 
 
 def canon_unordered(c):
